@@ -99,6 +99,7 @@ type World struct {
 	qhist   map[string]*qHist
 	openedAt int64 // simulated time of the last engine.Open
 	opens    int
+	cntMu    sync.Mutex // counters are also bumped by free-running tasks (C13 race tier)
 	vioFault *OpFault
 	confineRoot string // when set, file-system calls must stay below it (C19); default: the run's scratch root
 
@@ -124,11 +125,11 @@ type EvRec struct {
 	Size int64  `json:"size,omitempty"`
 }
 
-func (w *World) Stat(k string, d int64)  { w.Res.Stats[k] += d }
-func (w *World) Probe(k string)          { w.Res.Probes[k]++ }
-func (w *World) FaultFired(k string)     { w.Res.Faults[k]++ }
+func (w *World) Stat(k string, d int64)  { w.cntMu.Lock(); w.Res.Stats[k] += d; w.cntMu.Unlock() }
+func (w *World) Probe(k string)          { w.cntMu.Lock(); w.Res.Probes[k]++; w.cntMu.Unlock() }
+func (w *World) FaultFired(k string)     { w.cntMu.Lock(); w.Res.Faults[k]++; w.cntMu.Unlock() }
 func (w *World) Now() int64              { return time.Now().UnixNano() }
-func (w *World) MarkTime()               { w.Times = append(w.Times, w.Now()) }
+func (w *World) MarkTime()               { w.cntMu.Lock(); w.Times = append(w.Times, w.Now()); w.cntMu.Unlock() }
 
 // Fail records a violation (first one wins).
 func (w *World) Fail(clause, kind, detail string, opIdx int) {
@@ -266,6 +267,18 @@ func bubble(t *testing.T, f func()) (panicked any, stack string) {
 				}
 			}
 		}()
+		if realTime {
+			// free-running race tier: real clock, real scheduler (a goroutine blocked on a real mutex is not
+			// "durably blocked", so inside a bubble the fake clock could never advance past a sleeping lock holder)
+			defer func() {
+				if r := recover(); r != nil {
+					inner = r
+					innerStack = string(debug.Stack())
+				}
+			}()
+			f()
+			return
+		}
 		synctest.Test(t, func(t *testing.T) {
 			defer func() {
 				if r := recover(); r != nil {
@@ -279,11 +292,24 @@ func bubble(t *testing.T, f func()) (panicked any, stack string) {
 	return inner, innerStack
 }
 
+// realTime is set by the free-running race tier (C13 free=1): no bubble, real clock.
+var realTime bool
+
 // settle waits until every goroutine of the bubble is durably blocked.
-func settle() { synctest.Wait() }
+func settle() {
+	if realTime {
+		time.Sleep(20 * time.Millisecond)
+		return
+	}
+	synctest.Wait()
+}
 
 // advance moves the simulated clock forward by d and settles.
 func advance(d time.Duration) {
+	if realTime {
+		time.Sleep(min(d, 5*time.Millisecond))
+		return
+	}
 	if d > 0 {
 		time.Sleep(d)
 	}
